@@ -144,7 +144,18 @@ func history(durable bool, n int, steps int) (string, map[string]interface{}) {
 		payloads = append(payloads, enc[0])
 		return len(payloads) - 1
 	}
+	// deltas returned by Merge stay alive as objects (as in mesh's sender queue) and are encoded
+	// only when they are "sent", i.e. first used; what is sent must still be the delta of the merge
+	pending := map[int]*event.State{}
+	materialise := func(p int) {
+		if ds, ok := pending[p]; ok {
+			delete(pending, p)
+			ops = append(ops, vlib.App("OpDeltaCheck", vlib.N(uint64(p)), dumpTerm(ds)))
+			payloads[p] = ds.Encode()[0]
+		}
+	}
 	doMerge := func(dst int, p int) {
+		materialise(p)
 		other, err := event.DecodeState(payloads[p])
 		if err != nil {
 			panic(err)
@@ -154,7 +165,8 @@ func history(durable bool, n int, steps int) (string, map[string]interface{}) {
 		if delta != nil {
 			ds := delta.(*event.State)
 			dterm = "(Some " + dumpTerm(ds) + ")"
-			addPayload(ds)
+			payloads = append(payloads, []byte{})
+			pending[len(payloads)-1] = ds
 		} else {
 			payloads = append(payloads, nil) // keeps payload numbering aligned with the model
 		}
@@ -220,9 +232,15 @@ func history(durable bool, n int, steps int) (string, map[string]interface{}) {
 			if payloads[p] == nil {
 				continue
 			}
+			if _, isPending := pending[p]; isPending && r.Intn(2) == 0 {
+				continue // leave it queued a little longer
+			}
 			doMerge(r.Intn(n), p)
 			kinds["merge"]++
 		}
+	}
+	for p := 0; p < len(payloads); p++ {
+		materialise(p)
 	}
 	// closing phase: everybody receives everybody's full state (twice, so that relayed knowledge
 	// arrives too): afterwards all replicas have received the same set of updates
